@@ -181,3 +181,89 @@ find_starts = Contract("C16.BamBuffer._find_starts", target=lambda: _B()._find_s
                        canaries=[("strict bound", "start <= len(chunk)", "start < len(chunk)"), ("size only", "byteorder=\"little\") + 4", "byteorder=\"little\")")],
                        hints=lambda ctx, st, ks: [])
 CONTRACTS.append(find_starts)
+
+
+# --- reference interval of an alignment ------------------------------------------------------------------------------------------------
+# count_reference_length for one read (flat op / length arrays): the sum of the lengths of exactly the reference-consuming operations
+# M, D, N, =, X  (codes 0, 2, 3, 7, 8 in BAM's "MIDNSHP=X" numbering); alignment_to_interval: stop = position + reference length,
+# strand '-' iff flag bit 0x10.
+CIGAR_CODES = {"M": 0, "I": 1, "D": 2, "N": 3, "S": 4, "H": 5, "P": 6, "=": 7, "X": 8}
+ASSUMPTIONS.append("CigarOpEncoding numbers the operations MIDNSHP=X as 0..8 (the alphabet table is checked exhaustively in rtc/enum_c06.py / enum_c16.py)")
+
+
+def _cigar_mod():
+    from bionumpy.alignments import cigar
+    return cigar
+
+
+def _setup_crl(ctx):
+    st = St()
+    st.m = z3.Int("n_ops")
+    st.op, st.ln = z3.Function("op", z3.IntSort(), z3.IntSort()), z3.Function("oplen", z3.IntSort(), z3.IntSort())
+    st.args = [SArr.fresh(st.m, lambda i: st.op(I(i)), enc="CigarOpEncoding"), SArr.fresh(st.m, lambda i: st.ln(I(i)))]
+    return st
+
+
+def _consuming(ip, args, kwargs, lineno):
+    text = args[0]
+    return ip.list_to_arr([CIGAR_CODES[ch] for ch in text])
+
+
+def _ens_crl(ctx, st, ret):
+    spec = lambda i: Ite(Or(st.op(I(i)) == 0, st.op(I(i)) == 2, st.op(I(i)) == 3, st.op(I(i)) == 7, st.op(I(i)) == 8), st.ln(I(i)), 0)
+    Cs = M.exclusive_prefix(spec, st.m)
+    # the code's summands (mask * length) agree element-wise with the spec's: lemma L6 gives equal sums
+    C, f, n = ctx.ghost["sums"][-1]
+    M.prefix_congruent(C, f, Cs, spec, st.m, "lemma.summands.are.the.reference.consuming.lengths")
+    return [("reference.length.sums.exactly.M,D,N,=,X", I(ret) == Cs(st.m))]
+
+
+count_reference_length = Contract("C16.count_reference_length[one read]", target=lambda: _cigar_mod().count_reference_length, setup=_setup_crl,
+                                  requires=lambda ctx, st: [st.m >= 0, Forall(lambda i: And(st.op(i) >= 0, st.op(i) <= 8, st.ln(i) >= 0), triggers=[st.op], name="valid ops")],
+                                  ensures=_ens_crl, callees={"bionumpy.encoded_array.as_encoded_array": _consuming},
+                                  canaries=[("insertions counted", '"MDN=X"', '"MIN=X"'), ("mismatches not counted", '"MDN=X"', '"MDN="')])
+
+
+def _setup_a2i(ctx):
+    from bionumpy.datatypes import Bed6
+    st = St()
+    st.n = z3.Int("n_alignments")
+    st.flag, st.pos, st.rl = [z3.Function(x, z3.IntSort(), z3.IntSort()) for x in ("flag", "position", "reflen")]
+    cols = {"chromosome": Opaque("chromosome"), "name": Opaque("name"), "mapq": Opaque("mapq"), "cigar_op": Opaque("ops"), "cigar_length": Opaque("lens"),
+            "flag": SArr.fresh(st.n, lambda i: st.flag(I(i))), "position": SArr.fresh(st.n, lambda i: st.pos(I(i)))}
+    from pyvc.pybuiltins import STable
+    st.table = STable(cols, st.n)
+    ctx.ip.class_models[Bed6] = lambda ip, args, kwargs, lineno: SRec(None, **dict(zip(("chromosome", "start", "stop", "name", "score", "strand"), args)))
+    st.args = [st.table]
+    return st
+
+
+def _ens_a2i(ctx, st, ret):
+    strand = ret.get("strand")
+
+    def minus(i):
+        q, _ = M._divmod_noassert(st.flag(I(i)), 16)
+        return M._divmod_noassert(q, 2)[1] == 1
+    return [("start.is.the.position", Forall(lambda i: Implies(in_range(i, st.n), ret.get("start").at(i) == st.pos(i)))),
+            ("stop.is.position.plus.reference.length", Forall(lambda i: Implies(in_range(i, st.n), ret.get("stop").at(i) == st.pos(i) + st.rl(i)))),
+            ("strand.from.flag.0x10", Forall(lambda i: Implies(in_range(i, st.n), strand.at2(i, 0) == Ite(minus(i), ord("-"), ord("+"))))),
+            ("other.columns.passed.through", ret.get("chromosome") is st.table.cols["chromosome"] and ret.get("name") is st.table.cols["name"])]
+
+
+_ha = {}
+
+
+def _setup_a2i2(ctx):
+    st = _setup_a2i(ctx)
+    _ha["st"] = st
+    return st
+
+
+alignment_to_interval = Contract("C16.alignment_to_interval", target=lambda: ("ast", "bionumpy/alignments/__init__.py", "alignment_to_interval", "bionumpy.alignments"),
+                                 setup=_setup_a2i2, requires=lambda ctx, st: [st.n >= 0, Forall(lambda i: And(st.flag(i) >= 0, st.flag(i) < 65536), triggers=[st.flag], name="uint16 flags")],
+                                 ensures=_ens_a2i, decorators={"@streamable()": "identity on a table argument"},
+                                 callees={"bionumpy.alignments.cigar.count_reference_length":
+                                          lambda ip, args, kwargs, lineno: SArr.fresh(_ha["st"].n, lambda i: _ha["st"].rl(I(i)))},
+                                 canaries=[("strand bit 0x20", "np.uint16(16)", "np.uint16(32)"), ("strands swapped", 'ord("-"), ord("+")', 'ord("+"), ord("-")'),
+                                           ("stop without length", "alignment.position+length,", "alignment.position,")])
+CONTRACTS += [count_reference_length, alignment_to_interval]
